@@ -34,15 +34,18 @@ CFGS = {
     'e':   ('MC_TxPool_e.cfg',   {'accts': [1, 2], 'universe': UL + ADM_L, 'P': 3, 'W': 3, 'evict': True}),
     'pre': ('MC_TxPool_pre.cfg', {'accts': [1], 'universe': UG, 'P': 2, 'W': 2}),
 }
-MEM = {'q': ('MC_Mempool_q.cfg', 2), 'l': ('MC_Mempool_l.cfg', 3), 'pre': ('MC_Mempool_pre.cfg', 2)}
+MDROP = ('res', 'committed', 'forgot', 'cache', 'pc', 'cur', 'upd')
+# name: (cfg file, block_size [txLimit = block_size*2 = the spec's Limit])
+MEM = {'g': ('MC_Mempool_g.cfg', 0), 'q': ('MC_Mempool_q.cfg', 1), 'l': ('MC_Mempool_l.cfg', 0), 'pre': ('MC_Mempool_pre.cfg', 0),
+       'prefix_push': ('MC_Mempool_prefix_push.cfg', 0), 'prefix_atomic': ('MC_Mempool_prefix_atomic.cfg', 0)}
 
 
 def nontrivial(tr):
     """contains a commit-path step, an eviction, a rejected submission or an admin op"""
     for s in tr['steps']:
-        if s['a'] in ('Update', 'SwapState', 'UpdateToState', 'Evict', 'SubmitAdmin', 'SubmitBadSig', 'Flush'):
+        if s['a'] in ('Update', 'SwapState', 'UpdateToState', 'Evict', 'SubmitAdmin', 'SubmitBadSig', 'Flush', 'UpdCache', 'RcvPush'):
             return True
-        if s['a'] in ('Submit', 'Receive') and s['args'][1] != 'ok':
+        if s['a'] in ('Submit',) and s['args'][1] != 'ok':
             return True
     return False
 
@@ -130,26 +133,34 @@ def run(ctx, replay=None):
                 traces.append(t)
         tlc.cleanup(r)
 
-    # 2. Mempool exhaustive + edge cover
-    for name in (['q'] if quick else ['q', 'l']):
+    # 2. Mempool (ReceiveTx split into its atomic steps, 2-3 concurrent submitters): exhaustive + edge cover
+    for name in (['g', 'q'] if quick else ['g', 'q', 'l']):
         cfgfile, bs = MEM[name]
-        dump = name == 'q'
+        dump = name == 'g'
         r = engine.tlc_check(ctx, SPEC, 'MC_Mempool.tla', cfgfile, name='Mempool/' + name, dump=dump, workers=W, timeout=500)
         if r.violation:
             ctx.inconclusive.append('spec property %s violated in Mempool/%s' % (r.violation, name))
         if dump and r.scratch:
-            g = tlc.parse_dot(os.path.join(r.scratch, 'graph.dot'), drop_vars=('res', 'committed', 'resub', 'flushed', 'cache'))
+            g = tlc.parse_dot(os.path.join(r.scratch, 'graph.dot'), drop_vars=MDROP)
             paths, cov, want = cover_paths(g, ctx.rng, max_len=80)
             ctx.log('graph mempool: %d states %d edges -> %d paths covering %d/%d edges' % (len(g.states), len(g.edges), len(paths), cov, want))
             ctx.cov['mempool_edges_covered'] = cov
             ctx.cov['mempool_edges_total'] = want
             for k, p in enumerate(paths):
                 t = tlc.path_to_steps(g, p)
-                # Limit = block_size*2 in the code
-                t['cfg'] = {'kind': 'mempool', 'block_size': 1, 'mode': 'model'}
+                t['cfg'] = {'kind': 'mempool', 'block_size': bs, 'mode': 'model'}
                 t['id'] = 'graph-mempool-%d' % k
                 traces.append(t)
         tlc.cleanup(r)
+    cfgfile, bs = MEM['l']
+    r, ts = tlc.simulate_traces(SPEC, 'MC_Mempool.tla', cfgfile, 40 if quick else 400, 30, ctx.seed, drop_vars=MDROP)
+    ctx.add_tlc('Mempool/sim-l', r, exhaustive=False)
+    if r.violation:
+        ctx.inconclusive.append('spec property %s violated on a simulated behaviour of Mempool/l' % r.violation)
+    for k, t in enumerate(ts):
+        t['cfg'] = {'kind': 'mempool', 'block_size': bs, 'mode': 'model'}
+        t['id'] = 'sim-mempool-%d-%d' % (ctx.seed, k)
+        traces.append(t)
 
     # 3. pre-repair variants of the code: TLC must find the violation; counterexamples replayed (oracles only)
     wit = {}
@@ -159,14 +170,31 @@ def run(ctx, replay=None):
         traces.append(from_tlc_trace(r.trace, CFGS['pre'][1], 'witness-txpool-pre'))
     else:
         ctx.inconclusive.append('spec sensitivity: TxPool pre-repair configuration produced no counterexample')
-    r = tlc.run(SPEC, 'MC_Mempool.tla', MEM['pre'][0], workers=1, timeout=300)
-    wit['mempool_pre'] = r.violation
-    if r.violation and r.trace:
-        t = from_tlc_trace(r.trace, {'kind': 'mempool', 'block_size': 1}, 'witness-mempool-pre', drop=('res',))
-        t['steps'].append({'a': 'Reap', 'args': [-1], 'post': None})
-        traces.append(t)
-    else:
-        ctx.inconclusive.append('spec sensitivity: Mempool pre-repair configuration produced no counterexample')
+    for name in ('pre', 'prefix_push', 'prefix_atomic'):
+        r = tlc.run(SPEC, 'MC_Mempool.tla', MEM[name][0], workers=1, timeout=300)
+        wit['mempool_' + name] = r.violation
+        if r.violation and r.trace:
+            t = from_tlc_trace(r.trace, {'kind': 'mempool', 'block_size': MEM[name][1], 'split': name == 'prefix_atomic'},
+                               'witness-mempool-' + name, drop=('res',))
+            t['steps'].append({'a': 'Reap', 'args': [-1], 'post': None})
+            traces.append(t)
+        else:
+            ctx.inconclusive.append('spec sensitivity: Mempool %s configuration produced no counterexample' % name)
+    # the racy schedules by hand (oracles only): two and three goroutines submit the SAME transaction and all pass the
+    # Exists check before any of them pushes; a submitter parked between cache.Push and the list append while a block
+    # containing its transaction is committed / the pool is flushed
+    mp = {'kind': 'mempool', 'block_size': 2}
+    traces.append(hand('mempool-race-2', mp, [('RcvCheck', ['p1', 'a', 'pass']), ('RcvCheck', ['p2', 'a', 'pass']), ('RcvPush', ['p1', 'ok']),
+                                              ('RcvPush', ['p2', 'exist']), ('Reap', [-1]), ('RcvCheck', ['p1', 'a', 'exist'])]))
+    traces.append(hand('mempool-race-3', mp, [('RcvCheck', ['p1', 'a', 'pass']), ('RcvCheck', ['p2', 'b', 'pass']), ('RcvCheck', ['p3', 'a', 'pass']),
+                                              ('RcvCheck', ['p4', 'a', 'pass']), ('RcvPush', ['p3', 'ok']), ('RcvPush', ['p2', 'ok']),
+                                              ('RcvPush', ['p1', 'exist']), ('RcvPush', ['p4', 'exist']), ('Reap', [-1])]))
+    traces.append(hand('mempool-push-update-append', dict(mp, split=True),
+                       [('RcvCheck', ['p1', 'a', 'pass']), ('RcvPush', ['p1', 'ok']), ('UpdCache', [['a']]), ('UpdRefresh', []),
+                        ('RcvAppend', ['p1']), ('Reap', [-1])]))
+    traces.append(hand('mempool-push-flush-append', dict(mp, split=True),
+                       [('RcvCheck', ['p1', 'a', 'pass']), ('RcvPush', ['p1', 'ok']), ('Flush', []), ('RcvAppend', ['p1']),
+                        ('RcvCheck', ['p2', 'a', 'pass']), ('RcvPush', ['p2', 'ok']), ('RcvAppend', ['p2']), ('Reap', [-1])]))
     ctx.cov['spec_sensitivity'] = wit
 
     # 4. simulated behaviours of the large universe (two accounts, admin ops, limits 3/3); with eviction ticks
